@@ -184,6 +184,11 @@ func RunOnce(t *testing.T, sc *Scenario, prefix []int, expect [][]string) (x *Ex
 					w.InvFail = append(w.InvFail, fmt.Sprintf("step %d: %s", x.Steps, msg))
 				}
 			}
+			for _, th := range s.Threads {
+				if th.Done && th.DoneStep < 0 {
+					th.DoneStep = x.Steps
+				}
+			}
 			enabled, waiting, blocked := s.Snapshot()
 			x.States = append(x.States, stateKey(w, s))
 			// is anything that matters still alive?
